@@ -66,7 +66,23 @@ class C08(core.Check):
         return out
 
     def space(self):
-        return rt.OptSpace(al.ir_space(self.tier), self.option_list())
+        if self.tier == "thorough":
+            return rt.OptSpace(al.ir_space(self.tier), self.option_list())
+        full = self.option_list()
+        keep = []
+        seen = set()
+        for o in full:  # quick, atom-exhaustive part: one option set per kind plus the second default-text setting
+            key = (o["kind"], o.get("edd"), o.get("inline"), o.get("kwonly"))
+            if o["kind"] in rt.DOC_KINDS and not (o["edd"] or o["kind"] == "rest"):
+                continue
+            if o["kind"] in ("function", "method") and o["inline"] != o["kwonly"]:
+                continue
+            if o["kind"] == "method" and not o["inline"]:
+                continue
+            if key not in seen:
+                seen.add(key)
+                keep.append(o)
+        return core.Concat(rt.OptSpace(al.S_A(), keep), rt.OptSpace(al.S_B((2,)), full))
 
     def run_case(self, case):
         atoms, ret, ir = al.case_ir(case)
